@@ -211,3 +211,46 @@ func init() {
 	})
 	regImpl("c06.squeeze", func(a []string) string { return encStr(verifhook.SqueezeText(mustStr(a[0]))) })
 }
+
+// ---------------------------------------------------------------------------
+// e2e.C06.boundary: one datetime cell at the edges of what a Timestamp can hold (0001-01-01 … 9999-12-31 in UTC; the
+// edge moves with the location), converted by the real GenConf into text, binary and JSON in that order: either the
+// cell is rejected and NO file of the worksheet is written, or all three are written.
+//   c06.cell <location> <its transition table> <cell text>   → all | none | partial:<files>
+// ---------------------------------------------------------------------------
+
+func init() {
+	regStream("e2e.C06.boundary", func(r *rand.Rand, n int, emit func(string, ...string)) {
+		names := []string{"UTC", "Asia/Shanghai", "America/New_York", "Asia/Kolkata", "America/St_Johns", "Pacific/Auckland"}
+		texts := []string{"0001-01-01 00:00:00", "0001-01-01 12:00:00", "0001-01-02 00:00:00", "9999-12-31 23:59:59", "9999-12-31 00:00:00", "9999-12-30 23:59:59",
+			"0000-06-15 12:00:00", "0000-12-31 23:59:59", "2024-02-29 12:00:00", "1970-01-01 00:00:00", "0001-01-01", "9999-12-31", "99991231", "00010101"}
+		for i := 0; i < n; i++ {
+			z := zoneTable(names[r.Intn(len(names))])
+			emit("c06.cell", z.name, z.enc, encStr(texts[r.Intn(len(texts))]))
+		}
+	})
+	regImpl("c06.cell", func(a []string) string {
+		w := newWorkspace()
+		defer w.cleanup()
+		w.writeCSVBook("", bookSpec{Name: "Book", Sheets: []sheetSpec{{Name: "TimeConf", Rows: [][]string{
+			{"ID", "At"}, {"map<uint32, Item>", "datetime"}, {"id", "at"}, {"1", mustStr(a[2])}}}}})
+		ro := runOpts{LocationName: a[0], OutFormats: []format.Format{format.Text, format.Bin, format.JSON}}
+		if err := w.genProto(ro); err != nil {
+			return "protoerr"
+		}
+		err := w.genConf(ro)
+		var have []string
+		for _, ext := range []string{".txt", ".bin", ".json"} {
+			if _, e := os.Stat(filepath.Join(w.Conf, "TimeConf"+ext)); e == nil {
+				have = append(have, ext[1:])
+			}
+		}
+		switch {
+		case err == nil && len(have) == 3:
+			return "all"
+		case err != nil && len(have) == 0:
+			return "none"
+		}
+		return "partial:" + strings.Join(have, ",")
+	})
+}
